@@ -40,22 +40,61 @@ AllRecognised(w, clean) == \A i \in 1..Len(w) : Recognised(w, clean, i)
 \* documented writings: glue rule respected
 Documented(w, js) == \A i \in 1..(Len(w) - 1) : GlueOK(w[i], js[i], w[i + 1])
 
-VARIABLES w, js, clean, phase
-vars == <<w, js, clean, phase>>
-Init == w = <<>> /\ js = <<>> /\ clean \in BOOLEAN /\ phase = "choose"
+\* --- the scrubbing pipeline of scrub_aliquots(), pass by pass ------------------------------------------
+\* st[i]: has component i been rewritten to its symbol yet?  jn[i]: the joiner still standing after component i
+VARIABLES w, js, clean, phase, st, jn, round
+vars == <<w, js, clean, phase, st, jn, round>>
+Init == w = <<>> /\ js = <<>> /\ clean \in BOOLEAN /\ phase = "choose" /\ st = <<>> /\ jn = <<>> /\ round = 0
 Choose == /\ phase = "choose"
           /\ \E n \in 1..MaxLen : \E cs \in [1..n -> Comps] : \E j \in [1..(n - 1) -> Joiners] :
-               Documented(cs, j) /\ w' = cs /\ js' = j
-          /\ phase' = "chosen" /\ UNCHANGED clean
-Spec == Init /\ [][Choose]_vars
+               /\ Documented(cs, j) /\ w' = cs /\ js' = j
+               /\ st' = [i \in 1..n |-> cs[i].class = "SYM"] /\ jn' = j
+          /\ phase' = "scrub" /\ UNCHANGED <<clean, round>>
+\* the eight fraction-bearing scrubbers: every spelling with a fraction becomes its symbol
+Scrub == /\ phase = "scrub"
+         /\ st' = [i \in 1..Len(w) |-> st[i] \/ w[i].class # "BAREQ"]
+         /\ phase' = IF Fault = "clean_last" THEN "halfq" ELSE "cleanqq"
+         /\ UNCHANGED <<w, js, clean, jn, round>>
+\* the clean_qq scrubbers: every bare quarter (only when clean_qq is on)
+CleanQQ == /\ phase = "cleanqq"
+           /\ st' = [i \in 1..Len(w) |-> st[i] \/ clean]
+           /\ phase' = IF Fault = "clean_last" THEN "done" ELSE "halfq"
+           /\ UNCHANGED <<w, js, clean, jn, round>>
+\* half_plus_q: a bare quarter directly after a symbol half (through bare quarters) - only where the half stands
+\* at a word boundary or after another half
+RECURSIVE Lic(_, _)
+Lic(wd, i) == IF wd[i - 1].kind = "H" THEN i - 1 ELSE Lic(wd, i - 1)
+HalfClear(h) == h = 1 \/ js[h - 1] # "NONE" \/ w[h - 1].kind = "H"
+HalfPlusQ == /\ phase = "halfq"
+             /\ st' = [i \in 1..Len(w) |-> st[i] \/ (w[i].class = "BAREQ" /\ AfterHalf(w, i) /\ HalfClear(Lic(w, i)))]
+             /\ phase' = "interveners"
+             /\ UNCHANGED <<w, js, clean, jn, round>>
+\* remove_aliquot_interveners: blanks / of / of the between two symbols disappear
+RemoveInterveners ==
+  /\ phase = "interveners"
+  /\ jn' = [i \in 1..Len(jn) |-> IF st[i] /\ st[i + 1] THEN "NONE" ELSE jn[i]]
+  /\ phase' = IF Fault = "clean_last" THEN "cleanqq" ELSE "done"
+  /\ UNCHANGED <<w, js, clean, st, round>>
+\* normalising the normalised text once more (the symbols are SYM spellings now)
+Again == /\ phase = "done" /\ round = 0
+         /\ round' = 1 /\ phase' = "scrub"
+         /\ UNCHANGED <<w, js, clean, st, jn>>
+Next == Choose \/ Scrub \/ CleanQQ \/ HalfPlusQ \/ RemoveInterveners \/ Again
+Spec == Init /\ [][Next]_vars
 
-\* the normal form has one symbol per recognised component, in order
-NormalLen == phase = "chosen" /\ AllRecognised(w, clean) => TRUE
-FractionsAlwaysRecognised == phase = "chosen" => \A i \in 1..Len(w) : w[i].class # "BAREQ" => Recognised(w, clean, i)
-BareOnlyWithContext == phase = "chosen" /\ ~clean => \A i \in 1..Len(w) : (w[i].class = "BAREQ" /\ Recognised(w, clean, i)) => AfterHalf(w, i)
-CleanRecognisesAll == phase = "chosen" /\ clean => AllRecognised(w, clean)
+Chosen == phase # "choose"
+FractionsAlwaysRecognised == Chosen => \A i \in 1..Len(w) : w[i].class # "BAREQ" => Recognised(w, clean, i)
+BareOnlyWithContext == Chosen /\ ~clean => \A i \in 1..Len(w) : (w[i].class = "BAREQ" /\ Recognised(w, clean, i)) => AfterHalf(w, i)
+CleanRecognisesAll == Chosen /\ clean => AllRecognised(w, clean)
+\* the pipeline reaches the canonical text exactly for the chains all of whose components must be aliquots
+MustAll == \A i \in 1..Len(w) : w[i].class # "BAREQ" \/ clean \/ (AfterHalf(w, i) /\ HalfClear(Lic(w, i)))
+PipelineCanonical == phase = "done" /\ MustAll => (\A i \in 1..Len(w) : st[i]) /\ (\A i \in 1..Len(jn) : jn[i] = "NONE")
+\* a symbol is only ever produced where the statement allows it
+PipelineSound == phase = "done" => \A i \in 1..Len(w) : st[i] => Recognised(w, clean, i)
+\* fixed point: the second round changes nothing (checked as an action property)
+FixedPoint == [][round = 1 => (st' = st /\ jn' = jn)]_vars
 
-EmitCase == (EmitCases /\ phase = "chosen") =>
+EmitCase == (EmitCases /\ phase = "done" /\ round = 0) =>
   PrintT(<<"CASE", ToJson([w |-> w, js |-> js, clean |-> clean,
                            recognised |-> [i \in 1..Len(w) |-> Recognised(w, clean, i)]])>>)
 =============================================================================
